@@ -172,19 +172,20 @@ def popState (g : G) (e : Stash) (rest : List Stash) : G :=
            wt := Tree.pick (fun p => e.base.find? p != e.idx.find? p) e.idx g.wt }
 
 theorem pop_ok (g : G) (e : Stash) (rest : List Stash) (hs : g.stash = e :: rest)
+    (hclean : ∀ p, g.headTree.find? p = g.index.find? p)
     (h : ∀ p, e.base.find? p ≠ e.idx.find? p →
-      g.headTree.find? p = e.base.find? p ∧ g.index.find? p = e.base.find? p ∧ g.wt.find? p = e.base.find? p) :
+      g.headTree.find? p = e.base.find? p ∧ g.wt.find? p = e.base.find? p) :
     stashPopIndex g = .ok (popState g e rest) := by
   unfold stashPopIndex
   rw [hs]
+  have h1 : diffCached g = [] := (diffCached_eq_nil g).mpr hclean
   have h2 : (Tree.diffNames e.base e.idx).all (fun p =>
-      g.headTree.find? p == e.base.find? p && g.index.find? p == e.base.find? p
-        && g.wt.find? p == e.base.find? p) = true := by
+      g.headTree.find? p == e.base.find? p && g.wt.find? p == e.base.find? p) = true := by
     apply List.all_eq_true.mpr
     intro p hp
     have := h p ((Tree.mem_diffNames _ _ _).mp hp)
-    simp [this.1, this.2.1, this.2.2]
-  simp [h2, popState]
+    simp [this.1, this.2]
+  simp [h1, h2, popState]
 
 @[simp] theorem popState_commits (g e rest) : (popState g e rest).commits = g.commits := rfl
 @[simp] theorem popState_refs (g e rest) : (popState g e rest).refs = g.refs := rfl
@@ -375,6 +376,15 @@ namespace Git
 
 /-! ## `git_commit_xvc_files` -/
 
+/-- the state after `git reset --quiet` -/
+@[simp] theorem gitReset_commits (g : G) : (gitReset g).commits = g.commits := rfl
+@[simp] theorem gitReset_refs (g : G) : (gitReset g).refs = g.refs := rfl
+@[simp] theorem gitReset_head (g : G) : (gitReset g).head = g.head := rfl
+@[simp] theorem gitReset_wt (g : G) : (gitReset g).wt = g.wt := rfl
+@[simp] theorem gitReset_stash (g : G) : (gitReset g).stash = g.stash := rfl
+@[simp] theorem gitReset_index (g : G) : (gitReset g).index = g.headTree := rfl
+@[simp] theorem gitReset_headTree (g : G) : (gitReset g).headTree = g.headTree := rfl
+
 /-- Everything the theorems need to know about the state `g2` and result `ok` that
     `git_commit_xvc_files` produces from a state `g` whose index is clean (equal to HEAD). -/
 structure HelperFacts (spec : Path → Bool) (tb : Option String) (g g2 : G) (ok : Bool) : Prop where
@@ -384,9 +394,9 @@ structure HelperFacts (spec : Path → Bool) (tb : Option String) (g g2 : G) (ok
   refs : ∀ r, g.head ≠ .branch r → tb ≠ some r → lookupRef g2.refs r = lookupRef g.refs r
   index_user : ∀ p, spec p = false → g2.index.find? p = g.index.find? p
   keeps_where_wt_is_head : ∀ p, g.wt.find? p = g.headTree.find? p →
-    g2.index.find? p = g.headTree.find? p ∧ g2.headTree.find? p = g.headTree.find? p
-  clean_if_ok : ok = true → ∀ p, g2.headTree.find? p = g2.index.find? p
-  dirty_is_wt : ∀ p, g2.headTree.find? p ≠ g2.index.find? p → g2.index.find? p = g.wt.find? p
+    g2.headTree.find? p = g.headTree.find? p
+  /-- the index is clean again on EVERY exit path (needed by `git stash pop --index`) -/
+  clean : ∀ p, g2.headTree.find? p = g2.index.find? p
   head_user : ∀ p, spec p = false → g2.headTree.find? p = g.headTree.find? p
   commits : g2.commits = g.commits ∨
     ∃ o, g2.commits = g.commits ++ [o] ∧ o.parent = g.headCommit ∧ g2.headCommit = some g.commits.length ∧
@@ -395,40 +405,45 @@ structure HelperFacts (spec : Path → Bool) (tb : Option String) (g g2 : G) (ok
     g2.commits = g.commits ∧ (∀ p, g2.index.find? p = g.index.find? p) ∧ g2.headTree = g.headTree ∧
     (tb = none → ok = true ∧ g2.head = g.head ∧ ∀ r, lookupRef g2.refs r = lookupRef g.refs r)
 
-/-- the three ways `git_commit_xvc_files` can end -/
+/-- the four ways `git_commit_xvc_files` can end -/
 theorem helper_cases (spec : Path → Bool) (g : G) (msg : String) (tb : Option String) (hookOk : Bool) :
     (gitCommitXvcFiles spec g msg tb hookOk = (g, false) ∧ tb ≠ none) ∨
     (∃ gb, BranchStep tb g gb ∧
-      ((∃ ok, gitCommitXvcFiles spec g msg tb hookOk = (addState spec gb, ok) ∧
-          (ok = true ↔ ∀ p, spec p = true → gb.wt.find? p = gb.index.find? p)) ∨
+      ((gitCommitXvcFiles spec g msg tb hookOk = (addState spec gb, true) ∧
+          ∀ p, spec p = true → gb.wt.find? p = gb.index.find? p) ∨
+       (gitCommitXvcFiles spec g msg tb hookOk = (gitReset (addState spec gb), false) ∧
+          ¬ ∀ p, spec p = true → gb.wt.find? p = gb.index.find? p) ∨
        (gitCommitXvcFiles spec g msg tb hookOk = (commitState (addState spec gb) msg, true) ∧
           ¬ ∀ p, spec p = true → gb.wt.find? p = gb.index.find? p))) := by
   have key : ∀ gb, BranchStep tb g gb →
-      ((∃ ok, (if (gitAdd spec gb).2 = [] then ((gitAdd spec gb).1, true)
+      (((if (gitAdd spec gb).2 = [] then ((gitAdd spec gb).1, true)
           else match gitCommit (gitAdd spec gb).1 msg hookOk with
             | .ok g3 => (g3, true)
-            | _ => ((gitAdd spec gb).1, false)) = (addState spec gb, ok) ∧
-          (ok = true ↔ ∀ p, spec p = true → gb.wt.find? p = gb.index.find? p)) ∨
+            | _ => (gitReset (gitAdd spec gb).1, false)) = (addState spec gb, true) ∧
+          ∀ p, spec p = true → gb.wt.find? p = gb.index.find? p) ∨
        ((if (gitAdd spec gb).2 = [] then ((gitAdd spec gb).1, true)
           else match gitCommit (gitAdd spec gb).1 msg hookOk with
             | .ok g3 => (g3, true)
-            | _ => ((gitAdd spec gb).1, false)) = (commitState (addState spec gb) msg, true) ∧
+            | _ => (gitReset (gitAdd spec gb).1, false)) = (gitReset (addState spec gb), false) ∧
+          ¬ ∀ p, spec p = true → gb.wt.find? p = gb.index.find? p) ∨
+       ((if (gitAdd spec gb).2 = [] then ((gitAdd spec gb).1, true)
+          else match gitCommit (gitAdd spec gb).1 msg hookOk with
+            | .ok g3 => (g3, true)
+            | _ => (gitReset (gitAdd spec gb).1, false)) = (commitState (addState spec gb) msg, true) ∧
           ¬ ∀ p, spec p = true → gb.wt.find? p = gb.index.find? p)) := by
     intro gb _
     by_cases hout : (gitAdd spec gb).2 = []
     · left
-      refine ⟨true, by simp [hout, gitAdd_fst], ?_⟩
-      exact ⟨fun _ => (gitAdd_out_nil spec gb).mp hout, fun _ => rfl⟩
+      exact ⟨by simp [hout, gitAdd_fst], (gitAdd_out_nil spec gb).mp hout⟩
     · have hne : ¬ ∀ p, spec p = true → gb.wt.find? p = gb.index.find? p :=
         fun h => hout ((gitAdd_out_nil spec gb).mpr h)
       rcases commit_cases (gitAdd spec gb).1 msg hookOk with hf | ⟨hok, _⟩
       · rw [gitAdd_fst] at hf
-        left
-        refine ⟨false, by simp [hout, hf, gitAdd_fst], ?_⟩
-        simp [hne]
+        right; left
+        exact ⟨by simp [hout, hf, gitAdd_fst], hne⟩
       · rw [gitAdd_fst] at hok
-        right
-        refine ⟨by simp [hout, hok, gitAdd_fst], hne⟩
+        right; right
+        exact ⟨by simp [hout, hok, gitAdd_fst], hne⟩
   unfold gitCommitXvcFiles
   cases tb with
   | none =>
@@ -446,24 +461,26 @@ theorem helper_spec (spec : Path → Bool) (g : G) (msg : String) (tb : Option S
     (hclean : ∀ p, g.index.find? p = g.headTree.find? p) :
     HelperFacts spec tb g (gitCommitXvcFiles spec g msg tb hookOk).1
       (gitCommitXvcFiles spec g msg tb hookOk).2 := by
-  rcases helper_cases spec g msg tb hookOk with ⟨hA, htb⟩ | ⟨gb, hbs, hB | hC⟩
+  rcases helper_cases spec g msg tb hookOk with ⟨hA, htb⟩ | ⟨gb, hbs, ⟨hB, hall⟩ | ⟨hR, hne⟩ | ⟨hC, hne⟩⟩
   · -- `checkout -b` failed: nothing happened
     rw [hA]
     exact {
       wt := rfl, stash := rfl, head := Or.inl (Head.same_refl _), refs := fun _ _ _ => rfl,
       index_user := fun _ _ => rfl,
-      keeps_where_wt_is_head := fun p _ => ⟨hclean p, rfl⟩,
-      clean_if_ok := fun h => by simp at h,
-      dirty_is_wt := fun p h => absurd (hclean p).symm h,
+      keeps_where_wt_is_head := fun _ _ => rfl,
+      clean := fun p => (hclean p).symm,
       head_user := fun _ _ => rfl,
       commits := Or.inl rfl,
       nothing := fun _ => ⟨rfl, fun _ => rfl, rfl, fun h => absurd h htb⟩ }
-  · -- `git add` ran, no commit was made (nothing to add, or the commit failed)
-    obtain ⟨ok, hB, hok⟩ := hB
+  · -- `git add` found nothing to add
     rw [hB]
     have hH : gb.headTree = g.headTree := hbs.headTree
-    have hI : ∀ p, (addState spec gb).index.find? p = if spec p then g.wt.find? p else g.index.find? p := by
-      intro p; rw [addState_index, hbs.wt, hbs.index]
+    have hI : ∀ p, (addState spec gb).index.find? p = g.index.find? p := by
+      intro p
+      rw [addState_index]
+      by_cases hs : spec p = true
+      · simp only [hs, if_true]; rw [hall p hs, hbs.index]
+      · simp only [hs]; rw [hbs.index]; rfl
     exact {
       wt := by simp [hbs.wt], stash := by simp [hbs.stash],
       head := by
@@ -471,44 +488,37 @@ theorem helper_spec (spec : Path → Bool) (g : G) (msg : String) (tb : Option S
         · left; simp [h, Head.same_refl]
         · right; simpa using h,
       refs := fun r _ h2 => by simpa using hbs.refs r h2,
-      index_user := fun p hp => by rw [hI]; simp [hp],
-      keeps_where_wt_is_head := fun p hp => by
-        rw [hI, addState_headTree, hH]
-        by_cases hs : spec p = true
-        · simp [hs, hp]
-        · simp [hs, hclean p],
-      clean_if_ok := fun h p => by
-        rw [hI, addState_headTree, hH]
-        have hall := hok.mp h
-        by_cases hs : spec p = true
-        · have := hall p hs
-          rw [hbs.wt, hbs.index] at this
-          simp [hs, this, hclean p]
-        · simp [hs, hclean p],
-      dirty_is_wt := fun p h => by
-        rw [hI, addState_headTree, hH] at h
-        rw [hI]
-        by_cases hs : spec p = true
-        · simp [hs]
-        · simp [hs, hclean p] at h,
+      index_user := fun p _ => hI p,
+      keeps_where_wt_is_head := fun p _ => by rw [addState_headTree, hH],
+      clean := fun p => by rw [hI, addState_headTree, hH, hclean p],
       head_user := fun p _ => by rw [addState_headTree, hH],
       commits := Or.inl (by simp [hbs.commits]),
-      nothing := fun hn => by
-        refine ⟨by simp [hbs.commits], ?_, by rw [addState_headTree, hH], ?_⟩
-        · intro p
-          rw [hI]
-          by_cases hs : spec p = true
-          · simp [hs, hn p hs]
-          · simp [hs]
-        · intro htb
-          subst htb
-          refine ⟨hok.mpr (by intro p hs; rw [hbs.wt, hbs.index]; exact hn p hs), ?_, ?_⟩
-          · rcases hbs.head with h | ⟨b, h, _⟩
-            · simpa using h
-            · simp at h
-          · intro r; simpa using hbs.refs r (by simp) }
+      nothing := fun _ => by
+        refine ⟨by simp [hbs.commits], hI, by rw [addState_headTree, hH], ?_⟩
+        intro htb
+        subst htb
+        refine ⟨rfl, ?_, ?_⟩
+        · rcases hbs.head with h | ⟨b, h, _⟩
+          · simpa using h
+          · simp at h
+        · intro r; simpa using hbs.refs r (by simp) }
+  · -- `git commit` failed: the index is reset
+    rw [hR]
+    have hH : gb.headTree = g.headTree := hbs.headTree
+    exact {
+      wt := by simp [hbs.wt], stash := by simp [hbs.stash],
+      head := by
+        rcases hbs.head with h | h
+        · left; simp [h, Head.same_refl]
+        · right; simpa using h,
+      refs := fun r _ h2 => by simpa using hbs.refs r h2,
+      index_user := fun p _ => by simp [hH, hclean p],
+      keeps_where_wt_is_head := fun p _ => by simp [hH],
+      clean := fun p => by simp,
+      head_user := fun p _ => by simp [hH],
+      commits := Or.inl (by simp [hbs.commits]),
+      nothing := fun hn => absurd (by intro p hs; rw [hbs.wt, hbs.index]; exact hn p hs) hne }
   · -- `git add` and `git commit` succeeded
-    obtain ⟨hC, hne⟩ := hC
     rw [hC]
     have hcs := commitState_step (addState spec gb) msg
     have hH : gb.headTree = g.headTree := hbs.headTree
@@ -548,8 +558,7 @@ theorem helper_spec (spec : Path → Bool) (g : G) (msg : String) (tb : Option S
         by_cases hs : spec p = true
         · simp [hs, hp]
         · simp [hs, hclean p],
-      clean_if_ok := fun _ p => hHT' p,
-      dirty_is_wt := fun p h => absurd (hHT' p) h,
+      clean := hHT',
       head_user := fun p hp => by rw [hHT', hI]; simp [hp, hclean p],
       commits := Or.inr ⟨⟨(addState spec gb).index, (addState spec gb).headCommit, msg⟩,
         by rw [hcs.commits]; simp [hbs.commits],
@@ -593,13 +602,13 @@ theorem status_ite_inside (ok : Bool) : (if ok = true then Status.ok else Status
   cases ok <;> simp
 
 /-- The central lemma: on the conflict-free fragment `git_auto_commit` (patched) never leaves the
-    fragment, touches nothing but `spec` paths, and re-establishes `NoMixed`. -/
+    fragment, touches nothing but `spec` paths, re-establishes `NoMixed`, and leaves every path
+    clean in the index that was clean before. -/
 theorem autoCommit_facts (spec : Path → Bool) (g : G) (msg : String) (tb : Option String)
     (hookOk : Bool) (hm : NoMixed g) :
     CallFacts spec tb g (gitAutoCommit spec g msg tb hookOk).g (gitAutoCommit spec g msg tb hookOk).status ∧
     NoMixed (gitAutoCommit spec g msg tb hookOk).g ∧
-    ((gitAutoCommit spec g msg tb hookOk).status = .ok →
-      ∀ p, g.headTree.find? p = g.index.find? p →
+    (∀ p, g.headTree.find? p = g.index.find? p →
         (gitAutoCommit spec g msg tb hookOk).g.headTree.find? p =
         (gitAutoCommit spec g msg tb hookOk).g.index.find? p) := by
   by_cases hst : diffCached g = []
@@ -627,15 +636,9 @@ theorem autoCommit_facts (spec : Path → Bool) (g : G) (msg : String) (tb : Opt
           obtain ⟨h1, h2, h3, h4⟩ := hf.nothing hn
           exact ⟨h1, h2, h3, fun ht => (h4 ht).2⟩ }
     · intro p hp
-      show (gitCommitXvcFiles spec g msg tb hookOk).1.wt.find? p = _
-      rw [hf.wt]
-      exact (hf.dirty_is_wt p hp).symm
-    · intro hok p _
-      have : (gitCommitXvcFiles spec g msg tb hookOk).2 = true := by
-        cases h : (gitCommitXvcFiles spec g msg tb hookOk).2
-        · simp [h] at hok
-        · rfl
-      exact hf.clean_if_ok this p
+      exact absurd (hf.clean p) hp
+    · intro p _
+      exact hf.clean p
   · rcases push_cases g hm with hpush | hpush
     · -- staged changes stashed, commit attempted, stash popped
       have hclean : ∀ p, (pushState g).index.find? p = (pushState g).headTree.find? p := fun _ => rfl
@@ -651,12 +654,12 @@ theorem autoCommit_facts (spec : Path → Bool) (g : G) (msg : String) (tb : Opt
       have hW1' : ∀ p, g.headTree.find? p = g.index.find? p → (pushState g).wt.find? p = g.wt.find? p := by
         intro p hp; rw [pushState_wt]; simp [hp]
       have hpop : stashPopIndex g2 = .ok (popState g2 e g.stash) := by
-        apply pop_ok g2 e g.stash hs2
+        apply pop_ok g2 e g.stash hs2 hf.clean
         intro p hp
         have hp' : g.headTree.find? p ≠ g.index.find? p := hp
         have hk := hf.keeps_where_wt_is_head p (by rw [hW1 p hp']; rfl)
         simp only [pushState_headTree] at hk
-        refine ⟨hk.2, hk.1, ?_⟩
+        refine ⟨hk, ?_⟩
         rw [hf.wt]; exact hW1 p hp'
       have hres : gitAutoCommit spec g msg tb hookOk =
           ⟨popState g2 e g.stash, if ok = true then .ok else .gitError⟩ := by
@@ -713,25 +716,20 @@ theorem autoCommit_facts (spec : Path → Bool) (g : G) (msg : String) (tb : Opt
         rw [hW3, hI3]
         rw [popState_headTree, hI3] at hp
         by_cases hc : g.headTree.find? p = g.index.find? p
-        · simp only [hc, ne_eq, not_true_eq_false, if_false] at hp ⊢
-          rw [hf.dirty_is_wt p hp]
-          exact (hW1' p hc).symm
+        · simp only [hc, ne_eq, not_true_eq_false, if_false] at hp
+          exact absurd (hf.clean p) hp
         · simp only [ne_eq, hc, not_false_eq_true, if_true]
           exact hm p hc
-      · intro hok p hc
-        have hok' : ok = true := by
-          cases ok
-          · simp at hok
-          · rfl
+      · intro p hc
         rw [popState_headTree, hI3]
         simp only [hc, ne_eq, not_true_eq_false, if_false]
-        exact hf.clean_if_ok hok' p
+        exact hf.clean p
     · -- `git stash push` refused (no initial commit): `?` returns the error, nothing happened
       have hres : gitAutoCommit spec g msg tb hookOk = ⟨g, .gitError⟩ := by
         unfold gitAutoCommit stashUserStagedFiles
         simp [hst, hpush]
       rw [hres]
-      exact ⟨CallFacts.refl' spec tb g .gitError (by simp), hm, by simp⟩
+      exact ⟨CallFacts.refl' spec tb g .gitError (by simp), hm, fun _ h => h⟩
 
 end Git
 
